@@ -200,19 +200,49 @@ Proof. exact duration_reflexive. Qed.
 Theorem C16_duration_symmetric : forall d x y, duration_within d x y = duration_within d y x.
 Proof. exact duration_symmetric. Qed.
 
-(* partial: Durations inside the int64 nanosecond range; beyond it AsDuration saturates and distinct
-   Durations compare equal (known finding, C16_duration_saturation_refuted) *)
-Theorem C16_duration_accepts_iff_within_partial : forall d tx ux fx ty uy fy,
-  0 <= d -> tx = dur_full -> ty = dur_full ->
-  in64 (get_int "seconds" fx * giga) = true -> in64 (total_nanos fx) = true ->
-  in64 (get_int "seconds" fy * giga) = true -> in64 (total_nanos fy) = true ->
+(* full (was _partial): EVERY pair of Durations -- any int64 seconds, any int32 nanos, of either sign, normalised
+   or not, also beyond the +-10000 years of a valid Duration -- and every tolerance a time.Duration can hold:
+   the verdict is |x - y| <= d on the exact totals.  (/repo's DurationValueWithin now works on the seconds and
+   nanos fields; until then it went through AsDuration, which saturates beyond about 292 years.) *)
+Theorem C16_duration_accepts_iff_within : forall d tx ux fx ty uy fy,
+  0 <= d <= max_dur -> tx = dur_full -> ty = dur_full ->
+  in32 (get_int "nanos" fx) = true -> in32 (get_int "nanos" fy) = true ->
   duration_within d (CM tx true fx ux) (CM ty true fy uy) =
   (Z.abs (total_nanos fx - total_nanos fy) <=? d, true).
 Proof. exact duration_accepts_iff_within. Qed.
 
-Theorem C16_duration_saturation_refuted :
-  duration_within 0 (dur_msg 10000000000 0) (dur_msg 20000000000 0) = (true, true).
-Proof. vm_compute. reflexivity. Qed.
+Example C16_duration_accepts_iff_within_nonvacuous :
+  duration_within 1 (dur_msg 315576000000 0) (dur_msg 315575999999 999999999) = (true, true) /\
+  duration_within 1 (dur_msg 315576000000 0) (dur_msg 315575999999 999999998) = (false, true) /\
+  duration_within max_dur (dur_msg 9223372036 854775807) (dur_msg 0 0) = (true, true) /\
+  duration_within max_dur (dur_msg 9223372036 854775808) (dur_msg 0 0) = (false, true) /\
+  duration_within max_dur (dur_msg 9223372041 (-2147483648)) (dur_msg 0 2147483647) = (true, true) /\
+  duration_within max_dur (dur_msg 9223372042 (-2147483648)) (dur_msg 0 2147483647) = (false, true).
+Proof. repeat split; vm_compute; reflexivity. Qed.
+
+(* the model on Z is the code as Go computes it: for int64 seconds and int32 nanos no uint64 / int64 operation
+   of durationsWithin wraps *)
+Theorem C16_duration_kernel_no_wrap : forall d xs xn ys yn,
+  0 <= d <= max_dur -> in64 xs = true -> in64 ys = true -> in32 xn = true -> in32 yn = true ->
+  dur_sn_close_go d xs xn ys yn = dur_sn_close d xs xn ys yn.
+Proof. exact dur_sn_no_wrap. Qed.
+
+(* the kernel before the repair (AsDuration, then the exact distance of the two saturated values): right inside
+   the int64 nanosecond range, refuted beyond it (was known finding coq:2) *)
+Theorem C16_duration_v1_exact_inside_int64_ns : forall d tx ux fx ty uy fy,
+  0 <= d -> tx = dur_full -> ty = dur_full ->
+  in64 (get_int "seconds" fx * giga) = true -> in64 (total_nanos fx) = true ->
+  in64 (get_int "seconds" fy * giga) = true -> in64 (total_nanos fy) = true ->
+  duration_within_v1 d (CM tx true fx ux) (CM ty true fy uy) =
+  (Z.abs (total_nanos fx - total_nanos fy) <=? d, true).
+Proof. exact duration_v1_accepts_iff_within. Qed.
+
+Theorem C16_duration_saturation_v1_refuted :
+  duration_within_v1 0 (dur_msg 10000000000 0) (dur_msg 20000000000 0) = (true, true) /\
+  duration_within 0 (dur_msg 10000000000 0) (dur_msg 20000000000 0) = (false, true) /\
+  duration_within_v1 9223372036000000000 (dur_msg 0 999999999) (dur_msg 10000000000 0) = (true, true) /\
+  duration_within 9223372036000000000 (dur_msg 0 999999999) (dur_msg 10000000000 0) = (false, true).
+Proof. exact duration_saturation_v1_refuted. Qed.
 
 Theorem C16_duration_only_own_kind : forall d x y,
   answers (duration_within d) x y = true ->
@@ -589,8 +619,10 @@ Print Assumptions C16_time_accepts_iff_within.
 Print Assumptions C16_time_only_own_kind.
 Print Assumptions C16_duration_reflexive.
 Print Assumptions C16_duration_symmetric.
-Print Assumptions C16_duration_accepts_iff_within_partial.
-Print Assumptions C16_duration_saturation_refuted.
+Print Assumptions C16_duration_accepts_iff_within.
+Print Assumptions C16_duration_kernel_no_wrap.
+Print Assumptions C16_duration_v1_exact_inside_int64_ns.
+Print Assumptions C16_duration_saturation_v1_refuted.
 Print Assumptions C16_duration_only_own_kind.
 Print Assumptions C16_duration_wrap_v0_refuted.
 Print Assumptions C16_durp_symmetric_refuted.
